@@ -171,6 +171,18 @@ impl StructureMember {
             .address
             .map(|addr| (addr as isize + offset) as usize);
 
+        #[cfg(bs_verif)]
+        if offset < 0 || offset as usize + type_size > base_data.raw_data.len() {
+            crate::verif::event(
+                "oob_read",
+                &format!(
+                    "dwarf/type.rs:StructureMember::value have={} need={} offset={}",
+                    base_data.raw_data.len(),
+                    (offset.max(0) as usize).saturating_add(type_size),
+                    offset
+                ),
+            );
+        }
         let raw_data = Bytes::from(unsafe { std::slice::from_raw_parts(addr, type_size) });
 
         Some(ObjectBinaryRepr {
